@@ -154,6 +154,23 @@ Definition power_result (maxiter : nat) (conv : nat -> bool) : option nat :=
   let it := power_loop maxiter maxiter 0 conv in
   if (maxiter <= it) && ~~ conv it then None else Some it.
 
+(* ---- solve_csr_dense / solve_dia_dense: dispatch on what the scipy routine
+   returned (qutip/core/data/solve.py, after `out = solver(M, b, **options)`):
+     tuple of length 2  (x, info): iterative solver; info = 0 success,
+        info > 0 "tolerance not reached", info < 0 "bad input" -> RuntimeError
+     tuple of length > 2: least-squares solver (x, istop, ...): x is used
+     anything else: the solution array.
+   The payload x is an opaque tag. *)
+Inductive sres := SArr (x : Z) | STup (x : Z) (rest : seq Z).
+Inductive sout := SRet (x : Z) | SRaiseTol (code : Z) | SRaiseBad (code : Z).
+Definition solve_dispatch (r : sres) : sout :=
+  match r with
+  | SArr x => SRet x
+  | STup x [:: c] => if Z.eqb c 0 then SRet x
+                     else if Z.ltb 0 c then SRaiseTol c else SRaiseBad c
+  | STup x _ => SRet x
+  end.
+
 (* ---- execution instance: Gaussian integers ------------------------------- *)
 Definition GZ := (Z * Z)%type.
 Definition gz0 : GZ := (0%Z, 0%Z).
